@@ -171,6 +171,15 @@ func run(tc *tcase) Sx {
 		changes = append(changes, ch)
 	}
 	ra := &api.RenameAnalysis{SimilarityThreshold: tc.thr, Timeout: time.Duration(tc.timeout)}
+	if tc.timeout%int64(time.Millisecond) == 0 {
+		// whole milliseconds: go through Configure, as the pipeline does
+		ra = &api.RenameAnalysis{}
+		if err := ra.Configure(map[string]interface{}{
+			api.ConfigRenameAnalysisSimilarityThreshold: tc.thr,
+			api.ConfigRenameAnalysisTimeout:             int(tc.timeout / int64(time.Millisecond))}); err != nil {
+			panic(err)
+		}
+	}
 	if err := ra.Initialize(nil); err != nil {
 		panic(err)
 	}
